@@ -1,0 +1,5 @@
+//go:build !verif
+
+package dbkit
+
+func verifAt(string, ...interface{}) {}
